@@ -83,6 +83,15 @@ int main(int argc, char** argv)
 			{ FILE* f = fopen(*path, "wb"); fwrite(t.data(), 1, t.size(), f); fclose(f); }
 			Var a = Json::read(path), b = Json::decode(texts[i]); remove(*path);
 			if (a.ok() != b.ok() || (a.ok() && !(a == b))) {   /* (an invalid Var equals nothing, not even itself) */ printf("REPRODUCED Json::read of the %d-byte file '%s' (BOM %d) differs from decoding the text\n", (int)t.size(), texts[i], bom); return 1; } } }
+		// history: what one text leaves behind must not change how the next one is read (every pair of a text that stops early and a complete one)
+		{ const char* first[] = { "[1 /", "[1 /*", "[1 //", "\"\\u12", "\"\\ud83d", "\"a\\", "[1,", "{\"a\":", "{\"a\"", "[[[", "tru", "-", "1e", "{a=", "\"abc", "]" };
+		  const char* second[] = { "[1,2]", "{\"a\":\"\\u00e9\"}", "7", "\"x\"", "true", "[]", "{}", "[1 /*c*/ ,2]" };
+		  for (unsigned j = 0; j < sizeof(second) / sizeof(second[0]); j++) {
+			Var ref = Json::decode(second[j]); String refs = ref.ok() ? Json::encode(ref) : String("<invalid>");
+			for (unsigned i = 0; i < sizeof(first) / sizeof(first[0]); i++) for (int x = 0; x < 2; x++) {
+				if (x) Xdl::decode(first[i]); else Json::decode(first[i]);
+				Var r = x ? Xdl::decode(second[j]) : Json::decode(second[j]); String rs = r.ok() ? Json::encode(r) : String("<invalid>");
+				if (rs != refs) { printf("REPRODUCED %s::decode('%s') gives %s after decoding '%s', but %s on its own\n", x ? "Xdl" : "Json", second[j], *rs, first[i], *refs); return 1; } } } }
 		printf("OK\n"); return 0;
 	}
 	return 2;
